@@ -60,6 +60,15 @@ CHECKS["C15"] = dict(
     note="Trusted: TLC, stylesheet renderer, TraceListener selection events, node-id projection (document numbering by first appearance).",
     technique="TLA+ definition of key() evaluated by TLC; trace validation of recorded lookups in permuted orders")
 
+CHECKS["C16"] = dict(
+    category="model_checking", design_ref="DESIGN.md §5 C16",
+    text="Sort.tla defines the processing order under xsl:sort as the unique stable lexicographic order (NaN first for numbers, document order among equal keys, "
+         "also under descending). TLC checks on the definition that it is a permutation, ordered, stable and total for all key assignments from a pool; "
+         "seeded documents and 1-3 keys (literal/AVT attributes) are run in for-each and apply-templates and the observed (node, position(), last()) sequence "
+         "must equal Sorted.",
+    note="Trusted: TLC, renderer, TraceListener selection events. Text keys restricted to [a-z0-9]* (collation = code point); case-order/lang not exercised.",
+    technique="TLA+ definition of sorting model-checked for its facets; trace validation of observed processing order and positions")
+
 NOT_YET = {
 }
 
